@@ -83,6 +83,10 @@ rewrite post_grad_affine => /eqP; rewrite subr_eq0 => /eqP E.
 by rewrite map_is_posterior_mean E mulKmx // hess_unit.
 Qed.
 
+(* any point x (e.g. the one an optimiser stops at) differs from the maximiser by H^-1 applied to its gradient *)
+Theorem stationary_error x : x = map_closed - invmx hess *m post_grad x.
+Proof. by rewrite post_grad_affine mulmxBr (mulKmx hess_unit) -map_is_posterior_mean opprB addrC subrK. Qed.
+
 (* direct sampling: x = xm + L z with L L^T = H^-1 (numpy.linalg.cholesky of inv(H)):
    offset = posterior mean, linear part L, covariance L L^T = H^-1 = Woodbury form *)
 Theorem cholesky_draw (L : 'M[F]_n) (z1 z2 : 'cV[F]_n) :
